@@ -1,7 +1,23 @@
 import Driver.Util
-/-! Line-protocol driver for C05 (not built yet). -/
+import GqlgenVerif.Model.SyncProg
+import GqlgenVerif.Gen.SyncFacts
+/-! Line-protocol driver for C05.
+
+`sync` : which of the regenerated synchronisation skeletons (`Gen/SyncFacts.lean`) violate their invariant:
+`ok` or a `;`-separated list of `lock <function> <mutex>` (some path leaves the mutex held / locks it twice) and
+`chan <function> <channel> cap=<n>` (a bare send can find the buffer full). Names the function when
+`Props/C05Sync` stops closing. -/
 namespace Driver.C05
-def step (_line : String) : String := "bad-op"
+open GqlgenVerif.SyncProg GqlgenVerif.Gen.SyncFacts
+
+def syncReport : String :=
+  let l := lockProgs.filterMap (fun r => if balanced r.2.2 then none else some s!"lock {r.1} {r.2.1}")
+  let c := chanProgs.filterMap (fun r =>
+    if neverBlocks r.2.2.1 r.2.2.2 then none else some s!"chan {r.1} {r.2.1} cap={r.2.2.1}")
+  if l.isEmpty && c.isEmpty then "ok" else "; ".intercalate (l ++ c)
+
+def step (line : String) : String :=
+  if line.startsWith "sync" then syncReport else "bad-op"
 end Driver.C05
 
 def main : IO Unit := do
